@@ -91,22 +91,20 @@ def initOf (j : Json) : R A := do
   | _ => throw "unknown route"
 
 /-- one operation of a history -/
-def stepOf (s : A) (j : Json) : R A := do
+def opOf (j : Json) : R (FSA.Op Vx String) := do
   let k ← strf j "k"
   match k with
-  | "addv" => return s.addVertices (← listOf vxOf (← field j "vs"))
-  | "adde" =>
-    let es ← listOf (tripleOf vxOf vxOf str) (← field j "es")
-    lift (s.addEdges es (← boolf j "ir"))
-  | "addel" =>
-    let es ← listOf (tripleOf vxOf vxOf (listOf str)) (← field j "es")
-    lift (s.addEdgesL es (← boolf j "ir"))
-  | "delv" => lift (s.deleteVertex (← vxOf (← field j "v")))
-  | "delvs" => lift (s.deleteVertices (← listOf vxOf (← field j "vs")))
-  | "recurrent" => lift s.recurrent
-  | "rename" => lift (s.rename (← dictOf str str (← field j "m")))
-  | "copy" => return s.copy
+  | "addv" => return .addVertices (← listOf vxOf (← field j "vs"))
+  | "adde" => return .addEdges (← listOf (tripleOf vxOf vxOf str) (← field j "es")) (← boolf j "ir")
+  | "addel" => return .addEdgesL (← listOf (tripleOf vxOf vxOf (listOf str)) (← field j "es")) (← boolf j "ir")
+  | "delv" => return .deleteVertex (← vxOf (← field j "v"))
+  | "delvs" => return .deleteVertices (← listOf vxOf (← field j "vs"))
+  | "recurrent" => return .recurrent
+  | "rename" => return .rename (← dictOf str str (← field j "m"))
+  | "copy" => return .copy
   | _ => throw "unknown op kind"
+
+def stepOf (s : A) (j : Json) : R A := do lift (s.applyOp (← opOf j))
 
 def runSteps : A → List Json → List Json → List Json
   | _, [], acc => acc.reverse
